@@ -120,6 +120,7 @@ def load_dir(d):
         out[role].field_aliases = aliases
         out[role].fn_aliases = fn_aliases
         out[role].type_aliases = ty_aliases
+        out[role].ref_consts = canon.reference_consts(role)
     return out
 
 
